@@ -253,6 +253,18 @@ def run_point(g, n, rnd, force_seg=None):
     return {"h": {"unicode": unicode, "prefix": list(prefix)}, "ev": evs, "g": g, "kind": kind}
 
 
+def safe_point(rep, traces, g, n, rnd, force_seg=None):
+    try:
+        traces.append(run_point(g, n, rnd, force_seg=force_seg))
+    except Exception as e:   # noqa -- a raising store/fetch on a faithful server is itself a violation
+        import traceback
+        tb = traceback.extract_tb(e.__traceback__)
+        if tb and tb[-1].filename.startswith(common.VERIF):
+            raise     # the harness itself failed: machinery error, not a verdict
+        rep.violation(f"C04/{g['sop']}-{g['fop']}/{g['v']}/{g['serde'] if g['serde'] in ('none', 'custom', 'compressed') else 'pickle'}"
+                      f"/raises-{type(e).__name__}", f"grid point {g} raised {e!r}", {"grid": g, "error": repr(e)})
+
+
 def main(tier, rep):
     vclock.install()
     common.import_repo()
@@ -278,15 +290,7 @@ def main(tier, rep):
             nbig += 1
             if nbig % (6 if tier == "quick" else 2):
                 continue
-        try:
-            traces.append(run_point(g, n, rnd))
-        except Exception as e:   # noqa -- a raising store/fetch on a faithful server is itself a violation
-            import traceback
-            tb = traceback.extract_tb(e.__traceback__)
-            if tb and tb[-1].filename.startswith(common.VERIF):
-                raise     # the harness itself failed: machinery error, not a verdict
-            rep.violation(f"C04/{g['sop']}-{g['fop']}/{g['v']}/{g['serde']}/{g['coll']}/raises-{type(e).__name__}",
-                          f"grid point {g} raised {e!r}", {"grid": g, "error": repr(e)})
+        safe_point(rep, traces, g, n, rnd)
     # deterministic edge sweep (never sampled away): byte values whose tail interacts with the CR LF
     # terminator, under every segmentation mode, without a serializer, through every fetch operation
     for fop in ("get", "gets", "get_many", "gets_many", "gat", "gats"):
@@ -297,7 +301,7 @@ def main(tier, rep):
                 for rep_i in range(3):
                     g = {"sop": "set" if rep_i else "set_many", "fop": fop, "v": vc, "serde": ["none", "custom", "compressed"][rep_i],
                          "k": "bytes", "coll": "list"}
-                    traces.append(run_point(g, len(traces) * 3, rnd, force_seg=seg))
+                    safe_point(rep, traces, g, len(traces) * 3, rnd, force_seg=seg)
     acc, rej, st, _ = tlc.validate_traces("RoundTripTrace", [{"h": t["h"], "ev": t["ev"]} for t in traces], chunk=2000)
     rep.set("traces_validated_against_impl", len(traces))
     rep.set("trace_states", st)
